@@ -122,6 +122,8 @@ struct Rendered {
     scale: i64,
     /// the JSON document as written (model of JsonDsl.tla), for fmt "jdoc"
     jdoc: Option<Value>,
+    /// the unit of the payoffs written in the text (1 unless the literals carry an exponent suffix)
+    mult: f64,
 }
 
 fn render(t: &Tree, fmt: &'static str, rng: &mut Rng, style: Option<Style>) -> Rendered {
@@ -135,7 +137,7 @@ fn render(t: &Tree, fmt: &'static str, rng: &mut Rng, style: Option<Style>) -> R
                 names[pl].insert(k.clone(), k.clone());
             }
         }
-        Rendered { fmt, text: cli::render_json(t).to_string(), doc: None, names, sum: 0, scale: 1, jdoc: None }
+        Rendered { fmt, text: cli::render_json(t).to_string(), doc: None, names, sum: 0, scale: 1, jdoc: None, mult: 1.0 }
     } else {
         let style = style.unwrap_or_else(|| {
             let (sum, scale) = *rng.pick(&[(0i64, 1i64), (2, 1), (-6, 1), (2, 4), (10, 1), (-2, 2)]);
@@ -143,7 +145,7 @@ fn render(t: &Tree, fmt: &'static str, rng: &mut Rng, style: Option<Style>) -> R
         });
         let doc = cli::to_doc(t, &style, rng);
         let names = cli::shown_to_label(t, &doc);
-        Rendered { fmt, text: cli::render_efg(&doc, rng), names, sum: style.sum, scale: style.scale, doc: Some(doc), jdoc: None }
+        Rendered { fmt, text: cli::render_efg(&doc, rng), names, sum: style.sum, scale: style.scale, doc: Some(doc), jdoc: None, mult: 1.0 }
     }
 }
 
@@ -354,7 +356,7 @@ fn emit_out(sink: &mut Sink, mode: &str, game: &str, t: &Tree, r: &Rendered, rou
     sink.full.line(&json!({"id": id, "kind": "out", "mode": mode, "game": game, "fmt": r.fmt, "argv": argv, "opts": opts,
         "route": {"flag": route.flag, "src": route.src, "ext": route.ext, "to_file": route.to_file},
         "exit": obs.exit, "timed_out": obs.timed_out, "stderr_cat": obs.stderr_cat, "stderr": obs.stderr_head,
-        "printed": obs.printed, "raw_len": obs.raw.len(), "tree": t, "names": r.names, "sum": r.sum, "scale": r.scale,
+        "printed": obs.printed, "raw_len": obs.raw.len(), "tree": t, "names": r.names, "sum": r.sum, "scale": r.scale, "mult": r.mult,
         "group": group.map(|g| g.0), "group_tol": group.map(|g| g.1), "ref": refsol, "text": if r.text.len() < 4000 { r.text.clone() } else { String::new() }}));
 }
 
@@ -432,7 +434,46 @@ pub fn record(args: &Args) {
                     runs += 1;
                 }
             }
+            // HUGE UNIT: Gambit texts whose payoff literals are integers times 1e305 with the constant sum 1900 units: every
+            // payoff fits a double (at most 1e308), the sum of a pair (1.9e308) does not.  The model sees the integers; the
+            // printed numbers are read in the same unit.  Sampled methods or a long budget (no exact prediction: the shifted
+            // payoffs carry rounding errors of 1e-13 units)
+            let mut done = 0;
+            for (name, t) in games.iter() {
+                let mut big = 0f64;
+                t.clone().map_pay(&mut |p| {
+                    big = big.max(p.f().abs());
+                    p.clone()
+                });
+                let integral = {
+                    let mut all = true;
+                    t.clone().map_pay(&mut |p| {
+                        all &= matches!(p, Num::I(_));
+                        p.clone()
+                    });
+                    all
+                };
+                if big > 45.0 || !integral || done >= if thorough { 12 } else { 4 } {
+                    continue;
+                }
+                done += 1;
+                let style = Style { sum: 1900, scale: 1, interior: 0.0, share: 0.3, unnamed: 0.3, by_reference: 0.5, shuffle: true };
+                cli::set_efg_suffix("e305");
+                let mut r = render(t, "efg", &mut rng, Some(style));
+                cli::set_efg_suffix("");
+                r.mult = 1e305;
+                let mut opts: BTreeMap<&str, String> = BTreeMap::new();
+                opts.insert("m", ["sampled", "external", "full"][done % 3].to_string());
+                opts.insert("d", rng.pick(&DISCOUNTS).to_string());
+                opts.insert("t", "1000".to_string());
+                opts.insert("p", rng.pick(&["1", "2"]).to_string());
+                let route = Route { flag: if done % 2 == 0 { "default" } else { "gambit" }, src: if done % 2 == 0 { "file" } else { "stdin" }, ext: ".efg", to_file: false };
+                let (obs, argv) = execute(&exe, &dir, sink.id + 1, &r.text, &route, &opt_vec(&opts));
+                emit_out(&mut sink, &mode, &format!("{name}-huge-unit"), t, &r, &route, &opts, &obs, &argv, None, None);
+                runs += 1;
+            }
         }
+        "c15" if false => {}
         "c16" => {
             let mut group = 0u64;
             for (gi, (name, t0)) in games.iter().enumerate() {
@@ -982,7 +1023,7 @@ fn record_cjson(sink: &mut Sink, exe: &str, dir: &str, games: &[(String, Tree)],
                             names[pl].insert(k.clone(), k.clone());
                         }
                     }
-                    let r = Rendered { fmt: "jdoc", text: text.clone(), doc: None, names, sum: 0, scale: 1, jdoc: Some(doc.clone()) };
+                    let r = Rendered { fmt: "jdoc", text: text.clone(), doc: None, names, sum: 0, scale: 1, jdoc: Some(doc.clone()), mult: 1.0 };
                     let budget = ["1", "2", "3"][(gi + ki + variant) % 3];
                     let d = DISCOUNTS[(gi + ki) % 5];
                     let mut opts: BTreeMap<&str, String> = BTreeMap::new();
@@ -1176,7 +1217,9 @@ pub fn replay(args: &Args) {
             out.line(&json!({"id": id, "status": "violation", "mismatch": bad}));
             continue;
         }
-        let num = |k: &str| printed[k].as_f64().unwrap_or(f64::NAN);
+        // (a document whose payoff literals carry an exponent suffix prints its numbers in that unit)
+        let mult = c["mult"].as_f64().unwrap_or(1.0);
+        let num = |k: &str| printed[k].as_f64().unwrap_or(f64::NAN) / mult;
         let (u1, u2, r1, r2, rt) = (num("player_one_utility"), num("player_two_utility"), num("player_one_regret"), num("player_two_regret"), num("regret"));
         let half = c["sum"].as_i64().unwrap() as f64 / (2.0 * c["scale"].as_i64().unwrap() as f64);
         let tol = 1e-9;
